@@ -240,7 +240,7 @@ def repo_tests_under_monitor(ctx, accept):
 HISTORIES = ["fresh", "fresh", "fresh", "solve_then_move_leaf", "solve_then_phase_conf", "solve_then_change_comp", "index_gaps",
              "identity_change_comp", "solve_then_retune", "solve_then_retune", "solve_then_phase_edit", "solve_then_phase_edit",
              "solve_then_phase_edit", "solve_then_swap_leaves", "solve_then_rename", "analysed_while_built", "analysed_while_built",
-             "scratch_first_source", "scratch_first_source"]
+             "scratch_first_source", "scratch_first_source", "solve_then_rename"]
 
 
 def build_with_history(ctx, spec, mode, hseed, kw=None, prefer=None):
@@ -264,6 +264,8 @@ def build_with_history(ctx, spec, mode, hseed, kw=None, prefer=None):
     def analyse(so):
         with H.quiet():
             H.call(getattr(so, rng.choice(["solve", "solve", "phases", "rail_rep", "params"])))
+            if spec.get("phases") and rng.random() < 0.4:
+                H.call(so.phases)  # (a report that reads the phase configuration without solving)
             if prefer:  # the report the calling check is about to judge (method name or callable taking the System)
                 H.call(prefer, so) if callable(prefer) else H.call(getattr(so, prefer))
 
@@ -411,11 +413,19 @@ def build_with_history(ctx, spec, mode, hseed, kw=None, prefer=None):
                     so.set_comp_phases(lf["name"], copy.deepcopy(lf["phase"]))
             ctx.count("history", mode)
             return spec, so
+    all_sources = mode == "solve_then_rename_sources"
+    if all_sources:
+        mode = "solve_then_rename"
     if mode == "solve_then_rename":
         # one or two components (sources first) carry a temporary name while the system is analysed and get their real
         # name through change_comp afterwards (same structure, same indices, another name)
         cands = [c for c in spec["comps"] if c["kind"] == "Source"] + [c for c in spec["comps"] if c["kind"] not in ("Source", "PMux")]
-        pick = cands[:1] if rng.random() < 0.6 else []
+        srcs_ = [c for c in cands if c["kind"] == "Source"]
+        if all_sources or (len(srcs_) >= 2 and rng.random() < 0.45):
+            # every source (whichever one a mux ends up running from) is renamed after the analysis
+            pick = list(srcs_)
+        else:
+            pick = [rng.choice(srcs_)] if rng.random() < 0.6 else []
         rest = [c for c in cands if c not in pick]
         rng.shuffle(rest)
         pick += rest[: rng.choice([0, 1])]
@@ -509,8 +519,33 @@ def build_with_history(ctx, spec, mode, hseed, kw=None, prefer=None):
         ch = S.children_map(spec)
         first = spec["comps"][0]
         so = ns.System(spec.get("name", "sys"), ns.KINDS["Source"]("~z0", vo=4.2, rs=0.01))
-        if rng.random() < 0.5:
+        with_load = rng.random() < 0.5
+        if with_load:
             so.add_comp("~z0", comp=ns.KINDS["ILoad"]("~z0l", ii=0.003))
+        leaves = [c for c in spec["comps"] if c["kind"] != "Source" and not ch.get(c["name"])]
+        if leaves and rng.random() < 0.5:
+            # LATE variant: everything but one or two leaves is in place and ANALYSED (with the judged call's arguments)
+            # when the scratch source goes; the leaves then refill exactly the freed node slots (same slot count as in
+            # the analysis). Preferred leaves: direct children of a source that is off in some phase (phase-restricted
+            # or 0 V) - the recycled slot then sits below an initially-off parent
+            offsrc = set(c["name"] for c in spec["comps"] if c["kind"] == "Source" and (c.get("phase") is not None or not c["args"].get("vo")))
+            leaves.sort(key=lambda c: 0 if (len(c["parents"]) == 1 and c["parents"][0] in offsrc) else 1)
+            late = leaves[: 2 if with_load else 1]
+            for c in spec["comps"]:
+                if c not in late:
+                    S.add_one(so, spec, c, ns)
+            S.apply_phase_conf(so, {"phases": spec.get("phases"), "phases_first": spec.get("phases_first", True),
+                                    "comps": [c for c in spec["comps"] if c not in late]})
+            with H.quiet():
+                H.solve(so, **(kw or {}))
+            pref(so)
+            so.del_comp("~z0")
+            for c in late:
+                S.add_one(so, spec, c, ns)
+                if c.get("phase") is not None:
+                    so.set_comp_phases(c["name"], copy.deepcopy(c["phase"]))
+            ctx.count("history", mode + " (late: freed slots refilled by the last leaves)")
+            return spec, so
         rest = [c for c in spec["comps"] if c["kind"] != "Source"]
         only = [c["name"] for c in rest if len(c["parents"]) == 1 and len(ch.get(c["parents"][0], [])) == 1]
         at = (only or [c["name"] for c in rest] or [None])[0]
